@@ -164,7 +164,7 @@ def run(tier, work):
         v.count("differences")
         key = context_key(jobs[base_i]["files"]["t.rb"], kind, at if at < 10 ** 9 else len(jobs[base_i]["files"]["t.rb"].split("\n")))
         if key in v.known:
-            v.count("known_finding_hits")
+            v.known_hit(key)
             continue
         # confirm black-box, alone
         bb = C.confirm_alone(work, {"cfg": job["cfg"], "files": jobs[base_i]["files"], "args": job["args"]}, runs=1)[0]
